@@ -39,17 +39,18 @@ type Roles struct {
 	// SchemaCtx fields
 	FData, FValPtr, FPath, FDType, FCanCatch, FExit, FHasCaught, FTest, FExecCtx *types.Var
 
-	Kinds       []*types.Named             // schema kinds: named types in zog whose pointer implements ZogSchema
-	KindByName  map[string]*types.Named    //
-	Process     map[string]*ssa.Function   // kind name -> process method
-	Validate    map[string]*ssa.Function   // kind name -> validate method
-	Dispatch    map[*ssa.Function]string   // dispatch method -> "process"/"validate"
-	Pipelines   []*ssa.Function            // primitiveProcessor, primitiveValidator
-	EntryPoints []*ssa.Function            // exported Parse/Validate methods of schema kinds
-	Providers   []*types.Named             // DataProvider implementations
-	Pools       []*ssa.Global              // package-level sync.Pool vars
-	PoolElem    map[*ssa.Global]types.Type // pool var -> element struct type (pointee)
-	PooledTypes map[string]bool            // type string of pointee types that are pooled
+	Kinds            []*types.Named           // schema kinds: named types in zog whose pointer implements ZogSchema
+	KindByName       map[string]*types.Named  //
+	Process          map[string]*ssa.Function // kind name -> process method
+	Validate         map[string]*ssa.Function // kind name -> validate method
+	Dispatch         map[*ssa.Function]string // dispatch method -> "process"/"validate"
+	Pipelines        []*ssa.Function          // primitiveProcessor, primitiveValidator
+	EntryPoints      []*ssa.Function          // exported Parse/Validate methods of schema kinds (and any other exported function that runs a node itself)
+	ExtraEntryPoints []*ssa.Function
+	Providers        []*types.Named             // DataProvider implementations
+	Pools            []*ssa.Global              // package-level sync.Pool vars
+	PoolElem         map[*ssa.Global]types.Type // pool var -> element struct type (pointee)
+	PooledTypes      map[string]bool            // type string of pointee types that are pooled
 	// the unexported methods of the ZogSchema interface, found by signature (and, for the two that take
 	// a *SchemaCtx, by which of them the exported Parse entry points reach): renaming them changes nothing
 	MProcess, MValidate, MGetType, MSetCoercer string
@@ -306,6 +307,95 @@ func (P *Prog) discoverRoles() error {
 			R.Dispatch[fn] = "validate"
 		case "Parse", "Validate":
 			R.EntryPoints = append(R.EntryPoints, fn)
+		}
+	}
+	// any other exported function of the root package that runs a node itself (reaches a node method through
+	// unexported helpers only, not through one of the entry points above) is an entry point too: a convenience
+	// entry point added later (`ParseFields`, a prepared schema's `Parse`) is held to the same rules
+	{
+		known := map[*ssa.Function]bool{}
+		for _, e := range R.EntryPoints {
+			known[e] = true
+		}
+		var reaches func(fn *ssa.Function, d int, seen map[*ssa.Function]bool) bool
+		reaches = func(fn *ssa.Function, d int, seen map[*ssa.Function]bool) bool {
+			if d > 4 || seen[fn] || fn.Blocks == nil {
+				return false
+			}
+			seen[fn] = true
+			found := false
+			eachInstr(fn, func(_ *ssa.BasicBlock, _ int, in ssa.Instruction) {
+				if found {
+					return
+				}
+				for _, op := range in.Operands(nil) {
+					if op == nil || *op == nil {
+						continue
+					}
+					var g *ssa.Function
+					switch y := (*op).(type) {
+					case *ssa.Function:
+						g = y
+					case *ssa.MakeClosure:
+						g, _ = y.Fn.(*ssa.Function)
+					}
+					if g == nil {
+						continue
+					}
+					base := strings.TrimSuffix(strings.TrimSuffix(g.Name(), "$thunk"), "$bound")
+					if (base == R.MProcess || base == R.MValidate) && (g.Synthetic != "" || g.Signature.Recv() != nil) {
+						found = true
+						return
+					}
+					if g.Parent() == fn && reaches(g, d+1, seen) {
+						found = true
+						return
+					}
+				}
+				c, ok := in.(ssa.CallInstruction)
+				if !ok {
+					return
+				}
+				if c.Common().IsInvoke() {
+					if nm := c.Common().Method.Name(); nm == R.MProcess || nm == R.MValidate {
+						found = true
+					}
+					return
+				}
+				cal := c.Common().StaticCallee()
+				if cal == nil {
+					return
+				}
+				if o := cal.Origin(); o != nil {
+					cal = o
+				}
+				if _, isNode := R.Dispatch[cal]; isNode {
+					found = true
+					return
+				}
+				if inModule(funcPkgPath(cal)) && !ast.IsExported(cal.Name()) && reaches(cal, d+1, seen) {
+					found = true
+				}
+			})
+			return found
+		}
+		for _, fn := range P.Funcs {
+			if fn.Parent() != nil || known[fn] || funcPkgPath(fn) != pkgZog || !ast.IsExported(fn.Name()) || fn.Synthetic != "" {
+				continue
+			}
+			if recv := fn.Signature.Recv(); recv != nil {
+				rt := recv.Type()
+				if p, ok := rt.(*types.Pointer); ok {
+					rt = p.Elem()
+				}
+				if n, ok := rt.(*types.Named); ok && !ast.IsExported(n.Obj().Name()) {
+					continue
+				}
+			}
+			if reaches(fn, 0, map[*ssa.Function]bool{}) {
+				R.EntryPoints = append(R.EntryPoints, fn)
+				R.ExtraEntryPoints = append(R.ExtraEntryPoints, fn)
+			}
 		}
 	}
 	if len(R.Dispatch) < 18 {
